@@ -93,7 +93,33 @@ def _np_vstack(models, it, args, kw, fr, node):
 A.EXTRA_EXT["numpy.vstack"] = _np_vstack
 
 
+def _ktree_new(it, args, kwargs, fr, node):
+    it.ctx.models.note(it, "opaque:KDQTreePartitioner(...) (a fresh tree object; its own claims are C08)")
+    return SOpaque("KTree", it.run.fresh(it.ctx.sort("KTree"), "ktree"))
+
+
+X.CLASS_MODELS["menelaus.partitioners.KDQTreePartitioner:KDQTreePartitioner"] = _ktree_new
+
+
 def _ktree_method(models, it, target, obj, name, args, kwargs, fr, node):
+    if isinstance(target, SOpaque) and target.sort == "KTree" and name == "build":
+        models.note(it, "opaque:KDQTreePartitioner.build")
+        it.run.__dict__.setdefault("ktree_built", {})[target.t.sexpr()] = args[0]
+        return None
+    if isinstance(target, SOpaque) and target.sort == "KTree" and name == "leaf_counts":
+        # C08 (conservation) is the assumed link: the leaf counts of the build add up to the rows built
+        built = it.run.__dict__.get("ktree_built", {}).get(target.t.sexpr())
+        arr = it.run.fresh(z3.ArraySort(INT, INT), "leafcounts")
+        n = it.run.fresh("Int", "nleaves")
+        it.run.assume(n >= 1)
+        k = z3.Int("k!lc")
+        it.run.assume(z3.ForAll([k], arr[k] >= 0))
+        ref = it.run.alloc(HSeq(arr, z3.IntVal(0), n, "Int"))
+        if built is not None:
+            tot = models.vsum(it, it.run.obj(ref))
+            it.run.assume(tot == b2i(z(nrows(it, built))))
+            models.note(it, "assumed:C08 conservation (leaf counts of a build add up to the rows built)")
+        return ref
     if isinstance(target, SOpaque) and target.sort == "KTree":
         if name == "fill":
             models.note(it, "opaque:KDQTreePartitioner.fill (counts live inside the tree; contract-level claims are in C08)")
